@@ -54,17 +54,18 @@ func VerifyPresignedV4Signature(root RootUserConfig, iam auth.IAMService, logger
 		}
 		ctx.Locals("account", account)
 
+		// A presigned signature does not depend on the payload, so it is
+		// always verified before any handler runs (handlers may act without
+		// reading the body to its end).
+		err = utils.CheckPresignedSignature(ctx, authData, account.Secret, debug)
+		if err != nil {
+			return sendResponse(ctx, err, logger, mm)
+		}
+
 		if utils.IsBigDataAction(ctx) {
 			wrapBodyReader(ctx, func(r io.Reader) io.Reader {
 				return utils.NewPresignedAuthReader(ctx, r, authData, account.Secret, debug)
 			})
-
-			return ctx.Next()
-		}
-
-		err = utils.CheckPresignedSignature(ctx, authData, account.Secret, debug)
-		if err != nil {
-			return sendResponse(ctx, err, logger, mm)
 		}
 
 		return ctx.Next()
